@@ -80,27 +80,13 @@ impl<'a> IntoIterator for &'a Cfg {
 
 trait BaseCfgGen {
     fn call_names(&self) -> HashSet<LabelStringToken>;
-    fn jump_names(&self) -> HashSet<LabelStringToken>;
     fn label_names(&self) -> HashSet<LabelStringToken>;
-    fn load_names(&self) -> HashSet<LabelStringToken>;
 }
 
 impl BaseCfgGen for Vec<ParserNode> {
     fn call_names(&self) -> HashSet<LabelStringToken> {
         self.iter()
             .filter_map(parser::ParserNode::calls_to)
-            .collect()
-    }
-
-    fn jump_names(&self) -> HashSet<LabelStringToken> {
-        self.iter()
-            .filter_map(parser::ParserNode::jumps_to)
-            .collect()
-    }
-
-    fn load_names(&self) -> HashSet<LabelStringToken> {
-        self.iter()
-            .filter_map(parser::ParserNode::reads_address_of)
             .collect()
     }
 
@@ -135,18 +121,26 @@ impl Cfg {
             }
             set
         };
-        let jump_names = old_nodes.jump_names();
-        let load_names = old_nodes.load_names();
 
         // Check if any call or jump names are not defined
-        let undefined_labels = call_names
-            .union(&jump_names)
-            .cloned()
-            .collect::<HashSet<_>>()
-            .union(&load_names)
-            .filter(|x| !label_names.contains(x))
-            .cloned()
-            .collect::<HashSet<LabelStringToken>>();
+        // (each undefined label is represented by its first use in program order, so that
+        // the reported location does not depend on hashing)
+        let mut undefined_labels = HashSet::<LabelStringToken>::new();
+        for node in &old_nodes {
+            for used in [node.calls_to(), node.jumps_to(), node.reads_address_of()]
+                .into_iter()
+                .flatten()
+            {
+                if !label_names.contains(&used) {
+                    undefined_labels.insert(used);
+                }
+            }
+        }
+        for used in predefined_call_names.iter().flatten() {
+            if !label_names.contains(used) {
+                undefined_labels.insert(used.clone());
+            }
+        }
 
         if !undefined_labels.is_empty() {
             return Err(Box::new(CfgError::LabelsNotDefined(undefined_labels)));
